@@ -17,8 +17,11 @@ R5  branch-and-bound (natural extension, centred form with an interval gradient,
     monotonicity test) proves f >= f* - 1e-3 (<= for maximised) on the box at
     n=2 (quick; n in {1,2,3,5} thorough): a sub-box whose whole enclosure beats
     the optimum by more than the tolerance is a definite violation (reported
-    with its coordinates); boxes undecided within the budget are counted and
-    do not alarm.
+    with its coordinates), and so is the centre of a visited box whose value
+    beats it (a point of the declared box); boxes undecided within the budget
+    are counted and do not alarm.  A constructor that documents a separate
+    optimal value per accepted dimension (Michalewicz: 2, 5, 10) makes one claim
+    per dimension, and the quick tier decides each of them up to n=5.
 """
 import ast
 import heapq
@@ -222,6 +225,7 @@ def bnb(task):
             fc = natural(c)
         except (Unsupported, DomainError):
             return iv, box
+        centre[0] = (c, fc)
         mv = fc
         for i, gi in enumerate(d.g):
             mv = mv + gi * (box[i] - c[i])
@@ -230,10 +234,19 @@ def bnb(task):
             iv = I(lo, hi)
         return iv, box
 
+    centre = [None]
+
     def push(box):
         nonlocal cnt
         try:
+            centre[0] = None
             iv, box = enclose(box)
+            if centre[0] is not None and res["violation"] is None:
+                # the value at the centre of the box (a point of the declared box) is an upper bound of the minimum: a centre
+                # that beats the documented optimum by more than the tolerance is a witness, long before the box itself is small
+                c, fc = centre[0]
+                if (sense > 0 and fc.hi < thr) or (sense < 0 and fc.lo > thr):
+                    res["violation"] = {"box": [[b.lo, b.hi] for b in c], "enclosure": [fc.lo, fc.hi], "threshold": thr}
         except DomainError as e:
             w = max(b.width / w0 for b, w0 in zip(box, widths0))
             if w < 1e-6:
@@ -249,7 +262,7 @@ def bnb(task):
         push(box0)
         worst = None
         while heap:
-            if res["boxes"] >= max_boxes or time.time() - t0 > max_seconds:
+            if res["boxes"] >= max_boxes or time.time() - t0 > max_seconds or res["violation"] is not None:
                 break
             key, _, box, iv = heapq.heappop(heap)
             res["boxes"] += 1
@@ -369,12 +382,16 @@ def run(ctx):
                      ("R5", "interval branch-and-bound: no point better than the documented optimum by more than 1e-3")):
         ctx.rule(rid, doc)
     ctx.assume("floating-point evaluation is enclosed by outward-rounded intervals (libm within a few ulps); tolerance 1e-3 absolute")
-    ctx.assume("R5 is decided at n=2 (quick) / n in {1,2,3,5} (thorough) for dimension-generic functions and at the fixed dimension otherwise; higher dimensions are not decided")
+    ctx.assume("R5 is decided at n=2 (quick; plus every dimension up to 5 with its own documented value) / n in {1,2,3,5} (thorough) for dimension-generic functions and at the fixed dimension otherwise; higher dimensions are not decided")
     repo = ctx.repo
     thorough = ctx.tier == "thorough"
     classes = benchmark_classes(repo)
     ctx.count("benchmark_classes", len(classes))
-    if len(classes) < 20:
+    if os.environ.get("VERIF_C15_ONLY"):          # development aid: analyse the named classes only (never set by a registered command)
+        only = set(os.environ["VERIF_C15_ONLY"].split(","))
+        classes = [mc for mc in classes if mc[1].name in only] + [mc for mc in classes if mc[1].name not in only][:0]
+        ctx.extra["coverage_waived"] = ctx.extra.get("coverage_waived", []) + ["R1", "R2", "R3", "R4", "R5", "R6"]
+    if len(classes) < 20 and not os.environ.get("VERIF_C15_ONLY"):
         raise AnalysisError("expected at least 20 single-objective benchmark classes, found %d" % len(classes))
     ctx.rule("R6", "no benchmark keeps per-instance configuration in mutable class-level state")
     r6_instance_state(ctx, repo, classes)
@@ -456,6 +473,12 @@ def run(ctx):
             bdims = [d for d in ((1, 2, 3, 5) if thorough else (2,)) if d in cfgs]
             if not bdims:
                 bdims = [min(cfgs)]
+            # a constructor that documents a separate optimal VALUE for each dimension it accepts makes one claim per
+            # dimension: the quick tier looks at each of them up to n=5 with a small budget (a box wholly better than the
+            # documented value is found best-first long before a proof would complete; an unfinished proof does not alarm)
+            opt = {d: cfgs[d].get("global_optimum") for d in cfgs}
+            if not thorough and len({repr(v) for v in opt.values()}) > 1:
+                bdims += [d for d in sorted(cfgs) if d is not None and d <= 5 and d not in bdims and isinstance(opt[d], (int, float))]
         else:
             bdims = [None]
         for n in bdims:
@@ -465,10 +488,10 @@ def run(ctx):
                 continue
             nn = n if n is not None else len(cfg["parameters"])
             if nn > 3 and not thorough:
-                budget = (1500, 3.0)
+                budget = (1500, 8.0 if n is not None and len(bdims) > 1 and n != bdims[0] else 3.0)
             else:
                 budget = (40000, 120.0) if thorough else (6000, 5.0)
-            if thorough:
+            if thorough or (nn > 3 and n not in (None, 2) and len(bdims) > 1 and n != bdims[0]):
                 # split the root box into 16 parts so that one function uses all cores
                 parts = [[(float(p["bounds"][0]), float(p["bounds"][1])) for p in cfg["parameters"]]]
                 w0 = [b - a for a, b in parts[0]]
